@@ -45,7 +45,7 @@ fn mk_cfg(tier: Tier) -> RunCfg {
 fn write_evidence(cfg: &RunCfg, rep: &Report, wall: f64) {
     let mut coverage = serde_json::Map::new();
     coverage.insert("evaluations".into(), rep.evaluations.into());
-    coverage.insert("distinct_nontrivial".into(), (rep.nt_keys.len() as u64).into());
+    coverage.insert("distinct_nontrivial".into(), (rep.nt_keys.len() as u64 + rep.extra_nt).into());
     coverage.insert("rule".into(), rep.rule.clone().into());
     coverage.insert("samples".into(), serde_json::Value::Array(rep.samples.clone()));
     coverage.insert("exhaustive".into(), rep.exhaustive.into());
@@ -173,7 +173,7 @@ fn main() {
                 cfg.tier.name(),
                 cfg.seed,
                 rep.evaluations,
-                rep.nt_keys.len(),
+                rep.nt_keys.len() as u64 + rep.extra_nt,
                 rep.excluded,
                 wall
             );
